@@ -99,7 +99,16 @@ def decide_shape(kinds, at, timeout_s=60):
                 return Some(it)
         return NONE
     I.stubs["%s::node" % infot] = node_stub
-    I.mstubs = {("Context", "node"): ctx_node, ("Context", "document"): lambda I, c: state["document"]}
+    def add_item(I, ctx, item):
+        me = ctx.fields["info"].fields["id"]
+        reg = ctx.fields["registry"]
+        for k_, ent in enumerate(reg):
+            if ent[0] is me or ent[0].eq(me):
+                reg[k_] = (ent[0], item)
+                return kernel.UNIT
+        reg.append((me, item))
+        return kernel.UNIT
+    I.mstubs = {("Context", "node"): ctx_node, ("Context", "document"): lambda I, c: state["document"], ("Context", "add_item"): add_item}
 
     def thunk(I):
         parent, items, s, new_ctx, ids, _, registry, document = build(kinds, at)
